@@ -160,10 +160,15 @@ def refl_arg(rng):
     r = rng.random()
     if r < 0.25:
         return None, (float("nan"), float("nan"))
+    def val():     # the end points are legitimate values: 0 is the documented black body, 1 the perfect mirror (also as int)
+        q = rng.random()
+        return 0.0 if q < 0.15 else 1.0 if q < 0.25 else float(rng.random())
     if r < 0.6:
-        v = float(rng.random())
+        v = val()
+        if v in (0.0, 1.0) and rng.random() < 0.5:
+            return int(v), (v, v)
         return v, (v, v)
-    v, h = float(rng.random()), float(rng.random())
+    v, h = val(), val()
     return {"V": v, "H": h}, (v, h)
 
 
@@ -276,6 +281,13 @@ def correspond(ctx):
                     co.note(f"{module} optional {k} sampled")
                 if not case["kw"]:
                     co.note(f"{module} all optional parameters at default")
+            if REG[(side, module)][0] in ("reflector", "reflectorb"):
+                # the documented end points, always: 0 is a black body, 1 a perfect mirror (float, int, per polarisation)
+                for arg in (0.0, 0, 1.0, 1, {"V": 0.0, "H": 0.0}, {"V": 0.0, "H": 1.0}, {"V": 1, "H": 0}):
+                    case = sample_case(rng, side, module)
+                    case["kw"] = {"specular_reflection": arg}
+                    co.add(f"{side}.{module}", case_line(case), case_impl(case), TOL, desc=case)
+                    co.note(f"{module} end-point reflectivity")
             if side == "substrate" and module in ADAPTED:
                 for _ in range(ctx.n(3, 20)):
                     case = sample_case(rng, side, module)
@@ -423,6 +435,13 @@ def check_class(case):
             out.append((f"{key0}:budget", f"specular_{name}+transmission_{name}={float(s[p] + t[p])!r}", "<= 1"))
         elif module in SPECULAR_EXACT and abs(s[p] + t[p] - 1) > SLACK:
             out.append((f"{key0}:budget", f"specular_{name}+emissivity_{name}={float(s[p] + t[p])!r}", "1 (purely specular model)"))
+    if module in ("reflector", "reflector_backscatter"):
+        # a prescribed reflectivity is honoured as given (0 = black body ... 1 = mirror); the default is the perfect mirror
+        a = case["kw"].get("specular_reflection")
+        want = [1.0, 1.0] if a is None else ([float(a["V"]), float(a["H"])] if isinstance(a, dict) else [float(a), float(a)])
+        for p, name in ((0, "V"), (1, "H")):
+            if np.isfinite(s[p]) and abs(float(s[p]) - want[p]) > 1e-12:
+                out.append((f"{key0}:prescribed", f"specular_reflection={a!r} but specular_{name}={float(s[p])!r}", f"{want[p]}"))
     return out
 
 
@@ -559,6 +578,11 @@ def oracle(ctx, hints, effort):
                 if REG[(side, module)][0] == "nullspec":
                     continue                                # 1 - numerical integral: slow, and bounded by construction only approximately
                 record(case)
+            if REG[(side, module)][0] in ("reflector", "reflectorb"):
+                for arg in (0.0, 0, 1.0, 1, {"V": 0.0, "H": 1.0}):
+                    case = sample_case(rng, side, module)
+                    case["kw"] = {"specular_reflection": arg}
+                    record(case)
             if REG[(side, module)][0] in ("iem", "choudhury", "qnh"):
                 for _ in range(40 if big else 6):
                     case = sample_case(rng, side, module)
